@@ -180,10 +180,13 @@ def specCheck (prop : String) (op res : List String) : String :=
     else if (r.splitOn "PANIC").length > 1 then "fail panic while serving through a loading route"
     else if r.startsWith "config-rejected" then "fail a loading route was rejected by NewTranscoder"
     else "ok"
-  | "C07", ["rest_rt", _] =>
+  | "C07", ["rest_rt", h] =>
     -- a message converted to a REST request and parsed back must be unchanged
     match res with
-    | "enc" :: _ => verdict (res.getLast? == some "same=1") "a message converted to REST and back changed (or could not be parsed back)"
+    | "enc" :: _ =>
+      if res.getLast? == some "same=1" then "ok"
+      else if rtOnlySlashSpelling h then "fail [multi-var-lowercase-slash] a message converted to REST and back changed: an escaped slash spelled %2f in the value of a multi-segment variable came back as %2F"
+      else "fail a message converted to REST and back changed (or could not be parsed back)"
     | ["encerr", _] => "ok"      -- the message does not fit the rule's pattern / cannot be URL-encoded
     | ["config-rejected"] => "ok"
     | _ => "fail unparsable result"
@@ -194,7 +197,10 @@ def specCheck (prop : String) (op res : List String) : String :=
       verdict (runRestOut h == " ".intercalate res) "a message sent to a REST-only service reached the backend altered (or was dispatched although it does not fit the rule)"
     else if op == "rest_rt" then
       match res with
-      | "enc" :: _ => verdict (res.getLast? == some "same=1") "a message converted to REST and back changed (or could not be parsed back)"
+      | "enc" :: _ =>
+        if res.getLast? == some "same=1" then "ok"
+        else if rtOnlySlashSpelling h then "fail [multi-var-lowercase-slash] a message converted to REST and back changed: an escaped slash spelled %2f in the value of a multi-segment variable came back as %2F"
+        else "fail a message converted to REST and back changed (or could not be parsed back)"
       | ["encerr", _] => "ok"
       | ["config-rejected"] => "ok"
       | _ => "fail unparsable result"
